@@ -3,9 +3,10 @@ from common import *
 import numlib
 
 PID = "C07"
-TARGETS = ["Run.vo", "Conv_proofs.vo"]
+TARGETS = ["Run.vo", "Conv_proofs.vo", "Float_proofs.vo"]
 IMPORTS = "From VF Require Import Base Show Gen_Errors Lexer Conv Run."
-ALLOWED_AXIOMS = []
+import vlib
+ALLOWED_AXIOMS = sorted(vlib.FLOCQ_AXIOMS)      # Flocq real-number development: the four standard-library axioms (DESIGN 4)
 PROFILES = ["debug", "release"]
 TYPES = list(numlib.INTS.keys())
 COQTY = {"i8": "I8", "u8": "U8", "i16": "I16", "u16": "U16", "i32": "I32", "u32": "U32", "i64": "I64", "u64": "U64", "isize": "Isize", "usize": "Usize"}
